@@ -544,5 +544,21 @@ class LockEngine:
             tgt = ch[ch.index("invokes") + 1] if "invokes" in ch else w["via"]
             key = "callback|%s|%s" % (w["bound_at"], tgt)
         else:
-            key = "%s|%s|%s" % (w["fn"], w["held"], w["via"])
+            key = "%s|%s|%s" % (self._owner(w["fn"]), w["held"], w["via"])
         return {"kind": kind, "key": key, "witness": w, "cycle": cyc}
+
+    def _owner(self, fn, depth=0):
+        """the function a construct is attributed to: a private helper with a single calling function is part of that
+        function (so that splitting a function into private helpers does not rename a recorded construct)."""
+        P = self.P
+        F = P.bodies.get(fn)
+        if F is None or depth > 4 or F.pub or F.trait_method or F.kind == "closure":
+            return fn
+        callers = set()
+        for c, _ in P.callers().get(fn, []):
+            C = P.bodies.get(c)
+            callers.add(C.root if C is not None and C.kind == "closure" else c)
+        callers.discard(fn)
+        if len(callers) != 1:
+            return fn
+        return self._owner(next(iter(callers)), depth + 1)
